@@ -339,9 +339,42 @@ def catA(E, op, k, L):
     E.cover("step%s" % step)
 
 
+def sums_illtyped(E, cls, L):
+    """composing formal sums (also empty ones) of non-composable types is
+    refused"""
+    from discopy import cat, monoidal
+    kit = {'cat': cat, 'monoidal': monoidal}[cls]
+    if cls == 'cat':
+        x, y, z, w = (cat.Ob(E.int(n, 0, L - 1)) for n in 'xyzw')
+        S = cat.Sum
+    else:
+        x, y, z, w = (monoidal.Ty(E.int(n, 0, L - 1)) for n in 'xyzw')
+        S = monoidal.Sum
+    f, g = kit.Box('f', x, y), kit.Box('g', z, w)
+    n1, n2 = E.choice('n1', [0, 1, 2]), E.choice('n2', [0, 1, 2])
+    a, b = S([f] * n1, x, y), S([g] * n2, z, w)
+    comp = teq(y, z)
+    try:
+        r = a >> b
+    except cat.AxiomError:
+        E.cover("refused")
+        E.check(NOT(comp), "C01:sum:then:refused-composable")
+        return
+    E.cover("accepted")
+    E.check(comp, "C01:sum:then:accepted-noncomposable",
+            info="%d and %d terms" % (n1, n2))
+    E.check(AND(teq(r.dom, x), teq(r.cod, w)), "C01:sum:then:dom-cod")
+
+
 def harnesses(tier):
     q = tier == "quick"
     hs = []
+    for cls in ('cat', 'monoidal'):
+        hs.append(H("sums_illtyped_" + cls, sums_illtyped, dict(cls=cls, L=2),
+                    ["discopy.cat.Sum.then", "discopy.cat.Sum.__init__"],
+                    covers=["refused", "accepted"],
+                    bounds="sums of 0-2 copies of a box, symbolic labels",
+                    timeout_s=600))
     N = 4 if q else 6
     T = 600 if q else 900
     for k in ([1, 2] if q else [1, 2, 3]):
@@ -477,6 +510,8 @@ def _pools(cls):
                 bit ** 2]
         boxes = [G.H, G.X, G.CX, G.Rz(0.25), G.Ket(0), G.Ket(1, 0), G.Bra(1),
                  G.Bits(1), G.Bits(0, 1).dagger(), G.Copy(), G.Match(),
+                 G.Digits(1, dim=3), G.Digits(2, 0, dim=3),
+                 G.Digits(1, dim=3).dagger(),
                  Measure(), Measure(1, destructive=False),
                  Measure(1, override_bits=True),
                  Measure(1, destructive=False, override_bits=True),
